@@ -429,6 +429,25 @@ theorem writeEntry_data (st : DirStream) (name : String) (raw : DirFileEntryData
         simp only [run] at hb'; cases hb'
         rfl
 
+/- the part of `rename_internal` after the ancestor check (the join point of `if e.isDir`): `check_for_existence`,
+    then either the same-entry no-op or `write_entry` of the renamed record -/
+set_option hygiene false in
+local macro "rename_tail" : tactic => `(tactic| (
+    rcases run_bind_cases hr with ⟨r, d4, hce, hr⟩ | ⟨e, _, he⟩
+    rotate_left
+    · cases he
+    split at hr
+    · rename_i dstE
+      split at hr
+      · rename_i hpos; exact Or.inl ⟨dstE, hpos⟩
+      · have hr' : run (Prog.fail _) d4 = (.ok (), d') := hr
+        simp only [run] at hr'; cases hr'
+    · rename_i sn
+      rcases run_bind_cases hr with ⟨newEntry, d5, hw, hr⟩ | ⟨e, _, he⟩
+      rotate_left
+      · cases he
+      exact Or.inr ⟨sn, _, newEntry, d5, hw, writeEntry_data _ _ _ _ hw⟩))
+
 /-- `rename_internal`, successful: the source entry `e` is the one `find_entry` returned; either the destination
     name already denotes that same entry (nothing is written) or the entry written at the destination is
     `write_entry dst dstName (e.data.renamed sn)` for the generated short name `sn`, and the `DirEntry` it returns
@@ -440,6 +459,9 @@ theorem renameInternal_record (env : Env) (st : DirStream) (srcName : String) (d
        (∃ sn dB newEntry dC, run (writeEntry dst dstName (e.data.renamed sn)) dB = (.ok newEntry, dC) ∧
           newEntry.data = e.data.renamed sn)) := by
   unfold renameInternal at hr
+  split at hr
+  · have hr' : run (Prog.fail .invalidInput) d = (.ok (), d') := hr
+    simp only [run] at hr'; cases hr'
   rcases run_bind_cases hr with ⟨fs, d0, h0, hr⟩ | ⟨e, _, he⟩
   rotate_left
   · cases he
@@ -452,53 +474,12 @@ theorem renameInternal_record (env : Env) (st : DirStream) (srcName : String) (d
   rcases run_bind_cases hr with ⟨_, d2, _, hr⟩ | ⟨e, _, he⟩
   rotate_left
   · cases he
-  -- everything after the ancestor check (the join point of the `if e.isDir`)
-  have tail : ∀ dX, run (do
-        let r ← checkForExistence env dst dstName none
-        match r with
-          | EntryOrShort.entry dstE => if e.entryPos = dstE.entryPos then pure () else Prog.fail Err.alreadyExists
-          | EntryOrShort.short sn => do
-            deleteEntry st e
-            let newEntry ← writeEntry dst dstName (e.data.renamed sn)
-            if newEntry.isDir = true then
-                have parentCluster := if dst.isRootDir = true then none else dst.firstCluster;
-                do
-                let moved ← DirEntry.toDir d.fs newEntry
-                let dotdot ← thenDrop moved (findEntry env moved ".." (some true))
-                have ed : DirEntryEditor := dotdot.editor.setFirstCluster parentCluster d.fs.fatType
-                if ed.dirty = true then do
-                    let _ ← Prog.seekStart ed.pos
-                    let _ ← writeChunks devStrm () (chunksOf ed.data.serialize FileH.entryChunkSizes)
-                    pure ()
-                  else pure ()
-              else pure ()) dX = (.ok (), d') →
-      ((∃ dstE : DirEntry, e.entryPos = dstE.entryPos) ∨
-       (∃ sn dB newEntry dC, run (writeEntry dst dstName (e.data.renamed sn)) dB = (.ok newEntry, dC) ∧
-          newEntry.data = e.data.renamed sn)) := by
-    intro dX hr
-    rcases run_bind_cases hr with ⟨r, d4, hce, hr⟩ | ⟨e, _, he⟩
-    rotate_left
-    · cases he
-    split at hr
-    · rename_i dstE
-      split at hr
-      · rename_i hpos; exact Or.inl ⟨dstE, hpos⟩
-      · have hr' : run (Prog.fail _) d4 = (.ok (), d') := hr
-        simp only [run] at hr'; cases hr'
-    · rename_i sn
-      rcases run_bind_cases hr with ⟨_, d5, _, hr⟩ | ⟨e, _, he⟩
-      rotate_left
-      · cases he
-      rcases run_bind_cases hr with ⟨newEntry, d6, hw, hr⟩ | ⟨e, _, he⟩
-      rotate_left
-      · cases he
-      exact Or.inr ⟨sn, d5, newEntry, d6, hw, writeEntry_data _ _ _ _ hw⟩
   dsimp only at hr
   split at hr
   · rcases run_bind_cases hr with ⟨_, d3, _, hr⟩ | ⟨e, _, he⟩
     rotate_left
     · cases he
-    exact tail _ hr
-  · exact tail _ hr
+    rename_tail
+  · rename_tail
 
 end FatVerif
